@@ -3,6 +3,9 @@
 # confirms: demo passes on the unchanged code, full suite passes with the change, demo fails with the change; then runs
 # the property's check against the changed scratch copy and records whether it was detected.
 id=$1; k=$2; src=/tmp/wt-$id/seed$k; [ -d $src ] || src=/verif/seeded/.raw/$id/seed$k
+if [ ! -d $src ] && [ -f /verif/seeded/$id-$k/patch.diff ]; then # re-run of an imported seed
+  src=$(mktemp -d /tmp/seedsrc.XXXXXX); cp /verif/seeded/$id-$k/patch.diff /verif/seeded/$id-$k/meta.json $src/; cp /verif/seeded/$id-$k/demo_test.go.txt $src/demo_test.go
+fi
 export GOFLAGS=-mod=mod GOPROXY=off VERIF_DIR=/verif
 [ -f $src/patch.diff ] || { echo "no $src/patch.diff"; exit 2; }
 dst=/verif/seeded/$id-$k; mkdir -p $dst; cp $src/patch.diff $src/meta.json $dst/; cp $src/demo_test.go $dst/demo_test.go.txt
